@@ -393,7 +393,15 @@ func runLife(t *testing.T, ci interface{}, trace bool) *common.Outcome {
 			attach := func(cs *ConnState) {
 				cs.Data = st
 				css[i] = cs
-				cs.OnCloseHook = func(cs *ConnState, err error) { checkFirstCause(w, cs, st, err) }
+				cs.OnCloseHook = func(cs *ConnState, err error) {
+					if err == nbio.ErrDialTimeout && cs.Dialed && cs.DialCB > 0 && cs.DialErr == nil {
+						// the dial timer and the completion of the connect exclude each other: a dial
+						// that has reported success is over, its timeout is no close cause any more
+						w.Fail("C03", "dial-timeout-after-success", st.plan.Dial, "connection %d: the dial callback reported success, later the connection was closed with the dial timeout error (timeout %dms): the dial timer outlived the dial", cs.ID, st.plan.TimeoutMs)
+						return
+					}
+					checkFirstCause(w, cs, st, err)
+				}
 			}
 			switch plan.Kind {
 			case "accepted":
